@@ -68,6 +68,14 @@ def gen_resp(g, i, method):
         shape["status"] = g.choice(["400 Bad Request", "404 Not Found", "409 Conflict", "500 Internal Server Error", "700 Unknown"])
         shape["title"] = "T%d" % i
         shape["detail"] = g.choice(["", "went wrong", "détail"])
+        # headers carried by the raised error itself (the ordinary response headers of the shape are not used for errors); a
+        # content type in any spelling must win over the server's default, and the optional reason / fault travel too
+        eh = [[nm, header_value(g)] for nm in g.sample(["Retry-After", "X-Err", "WWW-Authenticate", "x-lower"], g.randint(0, 2))]
+        if g.random() < 0.5:
+            eh.insert(g.randint(0, len(eh)), [g.choice(["Content-Type", "content-type", "CONTENT-TYPE", "Content-type"]), g.choice(["application/problem+text", "text/x-err; charset=utf-8"])])
+        shape["eheaders"] = eh
+        shape["reason"] = g.choice(["", "", "Custom Reason"])
+        shape["fault"] = g.choice([None, None, 17])
     return shape
 
 
@@ -88,7 +96,7 @@ class C30(Check):
     assumptions = ["inputs whose result the statement does not determine are not generated: GET/HEAD with a body, header values outside latin-1 "
                    "or with CR/LF or surrounding whitespace, multipart forms, a body for HEAD responses",
                    "server-side query / form arguments are read the way a WSGI application does: urllib.parse.parse_qsl(keep_blank_values=True)"]
-    required_probes = ["fargs", "data", "body", "qargs", "error", "stream", "unicode-path", "partial-delivery", "bodyless-without-length-then-another"]
+    required_probes = ["fargs", "data", "body", "qargs", "error", "stream", "unicode-path", "partial-delivery", "bodyless-without-length-then-another", "error-header"]
     quick_runs = 8000
     thorough_runs = 400000
     shrink_fields = ["schedule", "reqs"]
@@ -242,9 +250,16 @@ class C30(Check):
                 return bad("status", "status %r != %r" % (r["status"], sh["status"]))
             hdrs = dict((k.lower(), v) for k, v in r["headers"].items())
             if sh["kind"] == "error":
-                want = httping.HTTPError(int(sh["status"].split()[0]), title=sh["title"], detail=sh["detail"]).render()
+                err = httping.HTTPError(int(sh["status"].split()[0]), reason=sh.get("reason", ""), title=sh["title"], detail=sh["detail"], fault=sh.get("fault"))
+                want = err.render()
                 if bytes(r["body"]) != want:
                     return bad("body", "error body %r != %r" % (bytes(r["body"]), want))
+                if r["reason"] != err.reason:
+                    return bad("reason", "reason %r != %r" % (r["reason"], err.reason))
+                for k, v in sh.get("eheaders", []):
+                    if hdrs.get(k.lower()) != v:
+                        return bad("headers", "header %s of the raised error = %r != %r" % (k, hdrs.get(k.lower()), v))
+                    out.probe("error-header")
             else:
                 want = b"".join(bytes(p) for p in sh["pieces"])
                 if bytes(r["body"]) != want:
